@@ -98,6 +98,14 @@ def enumerated_family():
         Config("M010", "0x0e+3x1o", "2x0e+2x1o", "4x0e+3x1o",
                [(0, 0, 0, "uvw", True, 1), (0, 1, 1, "uvw", True, 1), (1, 0, 1, "uvw", True, 1), (1, 1, 0, "uvw", True, 1)], optimize=False),
         Config("M007", "2x0e", "2x0e", "2x0e", [(0, 0, 0, "uuu", False, 1), (0, 0, 0, "uvw", True, 1)], irrep_normalization="none", path_normalization="none"),
+        # no more instructions than output entries, yet several paths into one output and unreached outputs
+        Config("M011", "2x0e+3x1o", "1x0e+1x1o", "4x0e+2x1o+3x2e",
+               [(0, 0, 0, "uvw", True, 1), (1, 1, 0, "uvw", True, 1)]),
+        Config("M012", "1x0e+1x1o", "1x0e+1x1o", "1x0e+1x1e+1x2e+1x3e",
+               [(0, 0, 0, "uvw", True, 1), (1, 1, 0, "uvw", True, 1), (1, 1, 1, "uvw", True, 1), (1, 1, 2, "uvw", True, 1)],
+               path_normalization="path"),
+        Config("M013", "2x1o", "2x1o", "2x0e+1x1o+2x1e",
+               [(0, 0, 0, "uuu", False, 1), (0, 0, 0, "uvu", True, 1), (0, 0, 2, "uuu", True, 1)], irrep_normalization="norm"),
     ]
     return fam
 
@@ -126,8 +134,20 @@ def random_family(rng, n):
             weighted = True if mode in ("uvw", "u<vw") else rng.random() < 0.7
             if mode == "uuw" and not weighted:
                 mo = 1
-            outs.append((mo, l3, p3))
-            ins.append((a, b, len(outs) - 1, mode, weighted, rng.choice([1, 1, 1, 2, Fraction(1, 4)])))
+            # several paths into one output: reuse an earlier output entry of the same type when the mode allows its multiplicity
+            free = mode in ("uvw", "u<vw") or (mode == "uuw" and weighted)
+            cands = [j for j, (mj, lj, pj) in enumerate(outs) if (lj, pj) == (l3, p3) and (free or mj == mo)]
+            if cands and rng.random() < 0.6:
+                io = rng.choice(cands)
+            else:
+                outs.append((mo, l3, p3))
+                io = len(outs) - 1
+            ins.append((a, b, io, mode, weighted, rng.choice([1, 1, 1, 2, Fraction(1, 4)])))
+        # unreached output entries (their position shifts later slices)
+        if rng.random() < 0.4:
+            pos = rng.randrange(len(outs) + 1)
+            outs.insert(pos, (rng.randint(1, 2), rng.randint(0, 2), rng.choice("eo")))
+            ins = [(a, b, io + 1 if io >= pos else io, mode, w, pw) for (a, b, io, mode, w, pw) in ins]
         f = lambda irr: "+".join(f"{m}x{l}{p}" for m, l, p in irr)
         fam.append(Config(f"R{t:03d}", f(i1), f(i2), f(outs), ins, irrep_normalization=rng.choice(["component", "norm"]),
                           path_normalization=rng.choice(["element", "path"]), shared=rng.random() < 0.5,
